@@ -27,6 +27,34 @@ CHECKS = {
          "Tier selection, discount range and the numeric result are not decided.",
          "A-SDK; discounts in (0,1) by JSON schema (not decided). Trusted base: go/types, x/tools v0.29.0, svclint rule tables.",
          "DESIGN.md §4 C07"),
+ "C08": ("expression agreement + admission guard dominance + must-delete on all paths",
+         "Decides that the three expiry expressions agree, acceptance is dominated by found/provider/active for the same id with rejections before effects, the marker is deleted on acceptance and on every expiry path, "
+         "the expiry queue is scanned at exactly the current height, the respond function reads no height, and start never opens a second batch.",
+         "A-ID. Trusted base: go/types, x/tools v0.29.0, svclint rule tables.",
+         "DESIGN.md §4 C08"),
+ "C09": ("field-write inventory with guards over all stored context values (typestate)",
+         "Decides the context state machine as an exhaustive inventory of stored writes of State, BatchCounter, BatchState, immutable and updatable fields with the facts that dominate them, plus issue-only-while-running and removal of completed contexts.",
+         "Trusted base: go/types, x/tools v0.29.0, svclint rule tables.",
+         "DESIGN.md §4 C09"),
+ "C10": ("finite case analysis of the expiry handler + guard/skeleton rules",
+         "Decides creation/continuation structure: first batch at the call block iff RUNNING, survival of batch expiry iff not completed and a batch is left (exact predicate), next-height skeleton, frequency>=timeout on stored values, "
+         "no second batch in flight. Exact cadence arithmetic and the bound over unbounded histories are not decided.",
+         "A-SDK (ValidateBasic before handler). Trusted base: go/types, x/tools v0.29.0, svclint rule tables.",
+         "DESIGN.md §4 C10"),
+ "C11": ("must-dequeue / exactly-one-successor path rules + sibling pairing",
+         "Decides the safety invariant standing in for liveness: queue and pointer (and both marker indexes) move together, every handler exit dequeues, every RUNNING path leaves exactly one successor event, enqueue height shapes, context deletion only by the expiry handler. "
+         "Liveness proper is not decided.",
+         "Known findings: D4, D11. Trusted base: go/types, x/tools v0.29.0, svclint rule tables.",
+         "DESIGN.md §4 C11"),
+ "C12": ("field-write inventory + callback dispatch guards",
+         "Decides batch bookkeeping writes (counts, thresholds, batch state with two exclusive completion sites) and the callback dispatch structure (iff module, outputs, error polarity, once per completion, state callback on pay failure). External callbacks are opaque.",
+         "A-HOST. Trusted base: go/types, x/tools v0.29.0, svclint rule tables.",
+         "DESIGN.md §4 C12"),
+ "C16": ("must-clean ordering + paired index maintenance + who-may-create",
+         "Decides that no transition creates an orphan: clean on every expiry path in order settle<complete<clean, both records deleted per scanned key, marker pair maintained together, finished contexts removed, request/response creation only by role functions. "
+         "Absence of orphans in a given store is not decided.",
+         "Known finding: D11. Trusted base: go/types, x/tools v0.29.0, svclint rule tables.",
+         "DESIGN.md §4 C16"),
  "C13": ("value identity on every path + who-may-write + key grammar",
          "Decides dual bookkeeping by one value, withdrawal pays exactly what it deletes to the owner's withdrawal address, withdraw-address writes only from the owner's own message, deletions only in withdraw, and the key grammar of the earnings families. Sums are not decided.",
          "A-SDK. Known findings: D5, D13. Trusted base: go/types, x/tools v0.29.0, svclint rule tables.",
